@@ -37,8 +37,7 @@ def calc_slope_temporalps(slope_data):
     # Only take half result, as FFT mirrors
     tps = abs(numpy.fft.fft(slope_data, axis=-2)[..., :int(n_frames/2), :])**2
 
-    # Find mean across all sub-aps
-    tps = (abs(tps)**2)
+    # Find mean across all sub-aps (tps is already the squared modulus)
     mean_tps = tps.mean(-1)
     tps_err = tps.std(-1)/numpy.sqrt(tps.shape[-1])
 
